@@ -97,7 +97,7 @@ theorem roundtrip_pingpong_partial (wsR wsS : WS) (h : Inv wsR) (hs : wsR.step =
   refine ⟨_, hst, hfr, ?_⟩
   intro chunks hc
   have hq : sil wsR = 0 := by unfold sil; rw [hs]; simp
-  obtain ⟨ws', hrun⟩ := roundtrip_ctrl_run wsR h hs hv op (by omega) payload hn (by omega) hmax halR
+  obtain ⟨ws', hrun, _⟩ := roundtrip_ctrl_run wsR h hs hv op (by omega) payload hn (by omega) hmax halR
     (by omega) m1 m2 m3 m4 wsS.isClient hrole _ rfl
   rw [split_independent wsR h hq hv chunks, hc]
   exact session_of_run h hq hv _ hrun
@@ -128,7 +128,7 @@ theorem roundtrip_close_partial (wsR wsS : WS) (h : Inv wsR) (hs : wsR.step = 0)
   refine ⟨_, hst, hfr, ?_⟩
   intro chunks hc
   have hq : sil wsR = 0 := by unfold sil; rw [hs]; simp
-  obtain ⟨ws', hrun⟩ := roundtrip_ctrl_run wsR h hs hv 8 (by omega) (beBytes 2 code ++ reason) (by rw [hpl]; omega)
+  obtain ⟨ws', hrun, _⟩ := roundtrip_ctrl_run wsR h hs hv 8 (by omega) (beBytes 2 code ++ reason) (by rw [hpl]; omega)
     (by intro _; rw [hpl]; omega) (by rw [hpl]; exact hmax) (by rw [hpl]; exact halR)
     (by intro _ _; rw [List.drop_append_of_le_length (by simp [beBytes_length])]
         have : (beBytes 2 code).drop 2 = [] := List.drop_of_length_le (by simp [beBytes_length])
